@@ -476,8 +476,15 @@ pub fn predict_with(sim: &mut Simulator, script: DevScript, strict_override: Opt
 }
 /// `iregs`: the default internal-register mappings (PSR xFFFC, MCR xFFFE) are installed.
 pub fn predict_full(sim: &mut Simulator, script: DevScript, strict_override: Option<bool>, all_init: bool, iregs: bool) -> Exp {
+    predict_rt(sim, script, strict_override, all_init, iregs, None)
+}
+/// `rt_override`: run the model with this `use_real_traps` instead of the simulator's flag (C12).
+pub fn predict_rt(sim: &mut Simulator, script: DevScript, strict_override: Option<bool>, all_init: bool, iregs: bool, rt_override: Option<bool>) -> Exp {
     let mcr0 = sim.mcr().load(std::sync::atomic::Ordering::Relaxed);
     let mut m = model_of(sim, script);
+    if let Some(rt) = rt_override {
+        m.flags.real_traps = rt;
+    }
     m.iregs = iregs;
     m.mcr = mcr0;
     if let Some(s) = strict_override {
